@@ -429,6 +429,11 @@ def main(argv=None) -> int:
     if not thorough:
         Lr += [[c] for c in clause_universe(2, 3) if len(c) == 3]
     merge(chk, par.pmap(clause_chunk, [(ch, 3, 10) for ch in par.chunks(Lr, n)]), 'clr_', agg)
+    # all-trivial clause lists (every clause contains x and ~x): ordered selections of 4 and 5
+    triv = [[1, -1], [2, -2], [3, -3], [-1, 1], [-2, 2], [1, 2, -1], [3, -2, 2]]
+    Lt = [list(t) for k in (4, 5) for t in itertools.permutations(triv, k)] if thorough else \
+        [list(t) for t in itertools.permutations(triv[:6], 4)] + [list(t) for t in itertools.permutations(triv[:5], 5)]
+    merge(chk, par.pmap(clause_chunk, [(ch, 3, 20) for ch in par.chunks(Lt, n)]), 'clt_', agg)
     L4 = [l for l in clause_lists(4, 3 if thorough else 2, 2)]
     merge(chk, par.pmap(clause_chunk, [(ch, 4, 40) for ch in par.chunks(L4, n)]), 'cl4_', agg)
     merge(chk, par.pmap(resolution_alg_chunk, [(ch, 4) for ch in par.chunks(L4, n)]), 'alg4_', agg)
